@@ -717,10 +717,6 @@ Definition right_marker_honoured (dt : wc) (toks : list ftok) : Prop :=
 
 (** * Helpers for the correspondence run *)
 
-Definition wc_pair_eqb (a b : str * wc * wc) : bool :=
-  str_eqb (fst (fst a)) (fst (fst b)) && wc_eqb (snd (fst a)) (snd (fst b))
-  && wc_eqb (snd a) (snd b).
-
 Definition mk_data (strs : list str) (conds : list bool) (counts ints : list nat) : data :=
   {| d_str := fun n => nth n strs [];
      d_cond := fun n => nth n conds false;
@@ -734,13 +730,6 @@ Definition observe (cf : cfg) (t : tree) (d : data)
   : res (str * list (str * wc * wc) * list str) :=
   do a <- parse cf t;;
   Ok (fst (render_nodes cf d a (d_str d)), content_pairs a, raw_texts a).
-
-Definition obs_eqb (a b : res (str * list (str * wc * wc) * list str)) : bool :=
-  res_eqb_nopos
-    (fun x y =>
-       str_eqb (fst (fst x)) (fst (fst y))
-       && list_eqb wc_pair_eqb (snd (fst x)) (snd (fst y))
-       && list_eqb str_eqb (snd x) (snd y)) a b.
 
 Definition markers_of (p : list (str * wc * wc)) : list (wc * wc) :=
   map (fun x => (snd (fst x), snd x)) p.
